@@ -2,6 +2,8 @@
    and followed by Print Assumptions. *)
 From GVL Require Import NList.
 From GV_ring Require Import Model Proofs ConcModel ConcProofs SkelCheck Bridge.
+From GV_ring Require Callers CallersProofs.
+From GVG Require Skel.
 From GVG Require Import Skel Kern.
 From Coq Require Import Permutation.
 Open Scope N_scope.
@@ -156,3 +158,33 @@ Example C16_example_kernels :
   k_ring_new_reject 18446744073709551614 = true /\ k_ring_new_reject 9223372036854775808 = false /\
   k_ring_push_next 7 8 = Some 0%Z /\ k_ring_pull_next 3 8 = Some 4%Z /\ k_ring_push_next 0 0 = None.
 Proof. vm_compute. repeat split. Qed.
+
+(* ---------------- the queue inside its callers (server_session.go, client.go: createWriter / destroyWriter) ----------------
+   Callers.v is an interleaving model of the session (or client) routine, which closes the writer inside PAUSE while its
+   context is alive, or at the end after cancelling it, and of the queue's consumer, whose OnError callback offers the
+   error on a channel that only that routine receives from.  For any number of queued items, any moment at which an item
+   fails, any moment of PAUSE / shutdown and ANY schedule: the schedule is finite, the error reaches the session at most
+   once, and a state in which nobody can move is one where Close has returned and the consumer has exited. *)
+Theorem C16_close_in_callers_always_returns : forall (n : nat) (ls : list Callers.label) (c : Callers.cfg),
+  Callers.run true ls (Callers.init n) = Some c ->
+  (length ls <= Callers.measure (Callers.init n))%nat /\ (Callers.reported c <= 1)%nat /\
+  (Callers.stuck true c -> Callers.sp c = Callers.SFin /\ Callers.cp c = Callers.CDone /\ Callers.done c = true).
+Proof. exact CallersProofs.close_in_callers_always_returns. Qed.
+Print Assumptions C16_close_in_callers_always_returns.
+
+(* the model was written from these skeletons of createWriter (the OnError closure: select over the processor's context,
+   the caller's context and the error channel), regenerated from server_session.go and client.go on every run *)
+Theorem C16_callers_skeleton_is_the_code :
+  Skel.skel_ss_create_writer = Callers.expected_create_writer /\ Skel.skel_cl_create_writer = Callers.expected_create_writer.
+Proof. exact CallersProofs.skel_callers_matches. Qed.
+Print Assumptions C16_callers_skeleton_is_the_code.
+
+(* why the processor's own context must be in that select (seeded changes C11-4 and C16-6 removed it): PAUSE closes the
+   writer (ctxCancel, buffer.Close, <-done) while an item fails; without that case the consumer waits for a receiver that
+   is waiting for the consumer; with it the same state is live *)
+Example C16_example_callers_deadlock_without_processor_context :
+  (exists c, Callers.run false [Callers.LPause; Callers.LS; Callers.LS; Callers.LCFail] (Callers.init 3%nat) = Some c /\
+     Callers.stuckb false c = true /\ Callers.sp c = Callers.SC3 /\ Callers.cp c = Callers.COnErr) /\
+  (exists c c', Callers.run true [Callers.LPause; Callers.LS; Callers.LS; Callers.LCFail] (Callers.init 3%nat) = Some c /\
+     Callers.step true Callers.LCCtx c = Some c').
+Proof. split; [exact CallersProofs.ignoring_processor_context_deadlocks|exact CallersProofs.same_state_is_live]. Qed.
